@@ -232,7 +232,10 @@ func randomHistory(rng *rand.Rand, nBlocks, maxAdds int) racHistory {
 // trees, sometimes a few more leaves), then one or two small blocks: empty roots survive, are merged over,
 // and sit next to live roots.
 func emptyRootHistory(rng *rand.Rand) racHistory {
-	n := 2 + rng.Intn(39)
+	n := 2 + rng.Intn(46)
+	if rng.Intn(2) == 0 {
+		n |= 1 // a lone leaf as the lowest tree: the next addition merges over its (possibly empty) root
+	}
 	h := racHistory{{Adds: n}}
 	var dels []uint64
 	base := 0
@@ -241,8 +244,8 @@ func emptyRootHistory(rng *rand.Rand) racHistory {
 		if n&(1<<uint(row)) == 0 {
 			continue
 		}
-		kill := rng.Intn(2) == 0
-		if first && rng.Intn(3) != 0 {
+		kill := rng.Intn(5) < 3
+		if (first || row == 0) && rng.Intn(3) != 0 {
 			kill = true
 		}
 		first = false
